@@ -3,7 +3,7 @@ from facts import AnalysisBroken
 from model import (dstr, strip, fact_holds, mentions_field, mentions_call, mentions_var,
                    mentions_enum, const_value, walk)
 from props.scan_common import check_refresh_validations, check_outputs_statted, check_midbuild_targets_scheduled
-from rules import (guarded, calls_to, field_writes, who_may_call, must_pass, dominated_by,
+from rules import (absent_from, guarded, calls_to, field_writes, who_may_call, must_pass, dominated_by,
                    full_range, loops_over, every_iteration_passes, basename, error_discipline,
                    origins, reject_if, canon_before_intern, skip_conditions_exact, is_var,
                    is_field, is_enum)
@@ -41,8 +41,8 @@ def evalstring_empty(var):
     return p
 
 
-def str_cmp(varprefix, literal, op='!='):
-    """operator!=(var, "literal") / operator==(...)"""
+def str_cmp(varprefix, literal, op='=='):
+    """operator==(var, "literal") - inequalities are normalised to a negated equality by norm_cond."""
     def p(a):
         a = strip(a)
         if not (isinstance(a, dict) and a.get('k') == 'call'):
@@ -102,7 +102,7 @@ def run(ctx):
               and strip(a)['op'] == '==' and var_named('minor')(strip(a)['l']) and
               const_value(strip(a)['r']) == 0, False, 'X2 unsupported version (minor != 0)',
               'X2:version-minor')
-    reject_if(ctx, 'C11.X', pv, str_cmp('name', 'ninja_dyndep_version'), True,
+    reject_if(ctx, 'C11.X', pv, str_cmp('name', 'ninja_dyndep_version'), False,
               'X2 first binding must be ninja_dyndep_version', 'X2:version-name')
     # X3: no build statement for the output
     reject_if(ctx, 'C11.X', pe, var_named('node'), False, 'X3 output unknown to the manifest',
@@ -122,7 +122,7 @@ def run(ctx):
     reject_if(ctx, 'C11.X', pe, evalstring_empty('out0'), True,
               'X5 missing output path', 'X5:missing-output')
     # X6: rule name
-    reject_if(ctx, 'C11.X', pe, str_cmp('rule_name', 'dyndep'), True, 'X6 rule name must be dyndep',
+    reject_if(ctx, 'C11.X', pe, str_cmp('rule_name', 'dyndep'), False, 'X6 rule name must be dyndep',
               'X6:rule-name')
     reject_if(ctx, 'C11.X', pe, lambda a: mentions_call(a, 'Lexer::ReadIdent') and
               strip(a).get('k') == 'call', False, 'X6 rule name present', 'X6:rule-ident')
@@ -132,7 +132,7 @@ def run(ctx):
               mentions_enum(a, 'Lexer::PIPE2'), True, 'X7 order-only inputs not supported',
               'X7:order-only')
     # X8: binding other than restat
-    reject_if(ctx, 'C11.X', pe, str_cmp('key', 'restat'), True, 'X8 only the restat binding is allowed',
+    reject_if(ctx, 'C11.X', pe, str_cmp('key', 'restat'), False, 'X8 only the restat binding is allowed',
               'X8:binding-name')
     # empty evaluated paths
     n_empty = 0
@@ -320,10 +320,7 @@ def run(ctx):
                 loop = {'header': bid, 'body': b['succ'][0], 'line': t['line'], 'bound': 'dyndep_edges'}
                 skip_conditions_exact(
                     ctx, 'C11.O1', dl, loop, lambda x: x is e,
-                    [(lambda a: mentions_field(a, 'Edge::outputs_ready_'), True),
-                     (lambda a: strip(a).get('k') == 'call' and
-                      basename(strip(a).get('name') or '').startswith('operator==') and
-                      'Plan::want_.end()' in dstr(a), True)],
+                    [(lambda a: mentions_field(a, 'Edge::outputs_ready_'), True)] + absent_from('Plan::want_'),
                     'an edge with new dyndep info is left out of the walk only if its outputs are ready '
                     'or it is not in the plan', 'DyndepsLoaded:extra-skip')
     check_refresh_validations(ctx, 'C11.O1', prog)
